@@ -42,9 +42,11 @@ def string_cases(prog, cr, rule="R18.4"):
     def judge_str(factory, with_unit):
         def judge(o):
             st = o.state
-            has_symbol = any(t.startswith("len(split)") and t.endswith("=2") for t in o.trace)
-            sym_found = any("_SYMBOL_UNIT_MAP[" in t and t.endswith("=found") for t in o.trace)
-            parse_fail = sum(1 for t in o.trace if "(str)@" in t and t.endswith("=ValueError")) >= 2
+            looks = [e for e in st.effects if e[0] == "symlookup" and getattr(e[1], "unit_values", False)]
+            has_symbol = bool(looks)
+            sym_found = any(e[3] for e in looks)
+            parses = [e for e in st.effects if e[0] == "parsed"]
+            parse_fail = bool(parses) and not any(e[2] for e in parses)
             if o.kind == "raise":
                 if not st.exc_is_qerr(o.exc.name):
                     return (exc_sig(o), "contract: QuantityError (or a subclass)")
